@@ -53,6 +53,8 @@ const QString kAtt = QStringLiteral("attacker"), kAttPw = QStringLiteral("apw");
 const QString kNobody = QStringLiteral("nobody");                  // no such account
 const QString kEmb = QStringLiteral("victim@example.org/x");         // an account (the attacker's) whose NAME embeds the victim's address
 const QString kEmbPw = QStringLiteral("epw");
+const QString kCase = QStringLiteral("Victim");                      // a separate account (the attacker's); differs from "victim" by case only
+const QString kCasePw = QStringLiteral("cpw");
 const QString kSibRes = QStringLiteral("sib");   // resource of the attacker account's second (honest) session
 const QString kVic = QStringLiteral("victim"), kVicPw = QStringLiteral("vpw-secret"), kVicRes = QStringLiteral("rv");
 
@@ -172,6 +174,7 @@ struct World {
         checker.creds[kAtt] = kAttPw;
         checker.creds[kVic] = kVicPw;
         checker.creds[kEmb] = kEmbPw;
+        checker.creds[kCase] = kCasePw;
         server.setDomain(kDomain);
         server.setLogger(&logger);
         server.setPasswordChecker(&checker);
@@ -361,6 +364,9 @@ struct Script {
             { "embedSlashEmpty", { kVic + "/y", QString() } },
             // an account that exists under such a name and belongs to the attacker
             { "embedKnown", { kEmb, kEmbPw } },
+            // an account of the attacker's own whose name is the victim's in another letter case:
+            // "Victim" and "victim" are separate accounts with separate passwords for the checker
+            { "caseKnown", { kCase, kCasePw } },
         };
         const auto e = table.value(c, { kAtt, kAttPw });
         user = e.first;
